@@ -3,7 +3,7 @@ import os, subprocess, threading
 META = dict(
     engine='seqx+mp',
     technique='exhaustive enumeration of a finite box of (source descriptor, target descriptor, window, displacements) points executed on the real parsec_redistribute in one process per shard (one parsec_init), analytic element-wise reference oracle; multi-rank legs under mpiexec over a reduced box',
-    level_text='Every point of the box (matrix sizes 1..6 x 1..6 elements for source and target independently, square tiles of 1,2,3 elements, every window size and every source/target displacement that fits, 2D block-cyclic and symmetric block-cyclic (SBC lower/upper) descriptors on both sides, k-cyclic columns) is executed through the real parsec_redistribute (wrapper, redistribute.jdf general path and redistribute_reshuffle.jdf fast path); after each call every element of every stored target tile (padding of partial tiles included) is compared with the reference: source value inside the window, pre-filled sentinel outside; the source must be unchanged. Multi-rank legs (2, 3, 4 MPI ranks, all process grids) repeat this on a reduced box.',
+    level_text='Every point of the box (matrix sizes 1..6 x 1..6 elements for source and target independently, square tiles of 1,2,3 elements and (2D block-cyclic, sizes <= 4x4 quick / 6x6 thorough) rectangular tiles 1x2 2x1 1x3 3x1 2x3 3x2 on either side, every window size and every source/target displacement that fits, 2D block-cyclic and symmetric block-cyclic (SBC lower/upper) descriptors on both sides, k-cyclic columns) is executed through the real parsec_redistribute (wrapper, redistribute.jdf general path and redistribute_reshuffle.jdf fast path); after each call every element of every stored target tile (padding of partial tiles included) is compared with the reference: source value inside the window, pre-filled sentinel outside; the source must be unchanged. Multi-rank legs (2, 3, 4 MPI ranks, all process grids) repeat this on a reduced box.',
     level_note='Element type double, tile storage (PARSEC_MATRIX_TILE); LAPACK storage, tabular descriptors and the DTD variant are not covered; message timing in the multi-rank legs is whatever MPI produces (not enumerated); quick tier bounds the matrix sizes by 5.',
 )
 RULE = ("one state = one point (source descriptor, target descriptor, window size, source displacement, target displacement) of the box, all points enumerated; "
@@ -83,25 +83,29 @@ def check(ctx):
     # ---- leg S: single process per shard, one parsec_init each, the whole box ----
     jobs, outfiles = [], []
 
-    def shards(tag, nsh, box, dl):
+    RECT = '12,21,13,31,23,32'     # rectangular tiles mb x nb (code mb*10+nb): pairs of equal area and different shape included (seeded change C21-1)
+
+    def shards(tag, nsh, box, dl, tiles='1,2,3'):
         for k in range(nsh):
             of = os.path.join(res, 'C21-outcomes-%s%d.txt' % (tag, k))
             if os.path.exists(of):
                 os.unlink(of)
             outfiles.append(of)
-            jobs.append((exe, box + ['--tiles', '1,2,3', '--shard', '%d/%d' % (k, nsh), '--outcomes', of, '--outdir', '/verif/out', '--deadline', str(dl)],
+            jobs.append((exe, box + ['--tiles', tiles, '--shard', '%d/%d' % (k, nsh), '--outcomes', of, '--outdir', '/verif/out', '--deadline', str(dl)],
                          'S-%s%d' % (tag, k), dl + 600))
     if quick:
         # quick box: 2DBC -> 2DBC with matrix sizes <= 5; the eight pairs involving SBC descriptors with sizes <= 4
         shards('a', 5, ['--maxm', '5', '--ydist', 'bc', '--tdist', 'bc'], 65)
         shards('b', 2, ['--maxm', '4', '--ydist', ALLD, '--tdist', ALLD, '--skip', 'bc-to-bc,' + SS], 65)
         shards('c', 1, ['--maxm', '4', '--ydist', 'sbcL,sbcU', '--tdist', 'sbcL,sbcU'], 65)
+        shards('r', 3, ['--maxm', '4', '--ydist', 'bc', '--tdist', 'bc'], 65, RECT)
     else:
         # thorough box: every distribution pair with sizes <= 6x6; k-cyclic columns (kq 2 on either side) for 2DBC -> 2DBC with sizes <= 5x5
         shards('a', 4, ['--maxm', '6', '--ydist', 'bc', '--tdist', 'bc'], 750)
         shards('b', 4, ['--maxm', '6', '--ydist', ALLD, '--tdist', ALLD, '--skip', 'bc-to-bc,' + SS], 750)
         shards('c', 2, ['--maxm', '6', '--ydist', 'sbcL,sbcU', '--tdist', 'sbcL,sbcU'], 750)
         shards('d', 2, ['--maxm', '5', '--ydist', 'bc', '--tdist', 'bc', '--kq', '1,2', '--skip-k11'], 750)
+        shards('r', 3, ['--maxm', '6', '--ydist', 'bc', '--tdist', 'bc'], 750, RECT + ',2')
     # ---- legs M: multi-rank, reduced boxes ----
     mjobs = []
     if quick:
